@@ -246,10 +246,17 @@ func c11r4(r *R) {
 			}
 			n++
 			okOnce := false
-			if par := fn.Parent(); par != nil {
-				for _, d := range calls(par, nameIs("(*sync.Once).Do")) {
-					if describe(d.Common().Args[0]) == "$0.closeOnce" && isClosureOf(describe(d.Common().Args[1]), fn) {
-						okOnce = true
+			lit := c.Parent() // the function the close really stands in (a literal, possibly inside a helper split out of fn)
+			if par := lit.Parent(); par != nil {
+				for _, b := range par.Blocks {
+					for _, ins := range b.Instrs {
+						d, ok := ins.(ssa.CallInstruction)
+						if !ok || calleeName(d.Common()) != "(*sync.Once).Do" {
+							continue
+						}
+						if strings.HasSuffix(describe(d.Common().Args[0]), ".closeOnce") && isClosureOf(describe(d.Common().Args[1]), lit) {
+							okOnce = true
+						}
 					}
 				}
 			}
